@@ -54,7 +54,7 @@ def generate(rng, tier):
                           'hash': rng.choice([8, 8, 10, 2, 1, 11]), 'nsigners': rng.choice([1, 2, 3]),
                           'corrupt': rng.choice([None, None, 'subject', 'sig', 'sig']), 'pos': rng.random(), 'bit': rng.randrange(8),
                           'verify_after_tick_s': rng.choice([0, 0, 11 * DAY, 401 * DAY, -DAY]),
-                          'combine': rng.choice([None, None, 'and', 'iand'])})
+                          'combine': rng.choice([None, None, 'and', 'iand']), 'cosign_subkey': rng.random() < 0.4})
     return {'config': {'keys': keys, 'start_us': 1_500_000_000_000_000 + 5 * DAY * 1_000_000}, 'steps': steps}
 
 
@@ -122,7 +122,8 @@ def _sign_verify(pgpy, w, step, ctx, combos):
     name = step['key']
     if name not in w.keys:
         return
-    st = {'id': step['id'], 'op': 'sign', 'kind': step['kind'] if step['kind'] != 'inkey' else 'cert_self', 'key': name,
+    st = {'id': step['id'], 'op': 'sign', 'cosign_subkey': bool(step.get('cosign_subkey')),
+          'kind': step['kind'] if step['kind'] != 'inkey' else 'cert_self', 'key': name,
           'target': step['target'], 'hash': step['hash'], 'nsigners': step['nsigners'], 'compression': 0, 'uid_index': 0, 'sub_index': 0,
           'level': 0x13, 'data': b'verdict coherence'.hex(), 'text': 'x', 'opts': {}}
     # signing happens while the key is still usable for the signer; an expired key still signs in PGPy
